@@ -50,39 +50,41 @@ type c17ident struct {
 	Stake     int64  `json:"stake"`
 	Shard     int    `json:"shard,omitempty"` // 1..Shards (0 = 1)
 	Delegatee int    `json:"delegatee"`       // -1 = none; never a delegation chain (finding F8 belongs to C01)
-	Inviter   int    `json:"inviter"`   // -1 = none
+	Inviter   int    `json:"inviter"`         // -1 = none
 }
 
 // what one identity submits
 type c17sub struct {
-	Hash     bool   `json:"hash"`               // SubmitAnswersHashTx
-	BadHash  bool   `json:"badHash,omitempty"`  // … whose hash does not match the short answers
-	Short    string `json:"short,omitempty"`    // "" none | "ok" | "garbage"
-	Long     string `json:"long,omitempty"`     // "" none | "ok" | "garbage" | "badrnd" | "empty"
-	Accuracy int    `json:"accuracy,omitempty"` // % of flips answered like the majority
-	Reports  int    `json:"reports,omitempty"`  // % of long flips reported
-	Evidence []int  `json:"evidence,omitempty"` // nil = no EvidenceTx; else the identities it approves
-	HasEvi   bool   `json:"hasEvi,omitempty"`
+	Hash      bool   `json:"hash"`                // SubmitAnswersHashTx
+	BadHash   bool   `json:"badHash,omitempty"`   // … whose hash does not match the short answers
+	Short     string `json:"short,omitempty"`     // "" none | "ok" | "garbage"
+	Long      string `json:"long,omitempty"`      // "" none | "ok" | "garbage" | "badrnd" | "empty"
+	Accuracy  int    `json:"accuracy,omitempty"`  // % of flips answered like the majority
+	Reports   int    `json:"reports,omitempty"`   // % of long flips reported
+	NoApprove bool   `json:"noApprove,omitempty"` // gives no approving grade to the flips it does not report
+	Evidence  []int  `json:"evidence,omitempty"`  // nil = no EvidenceTx; else the identities it approves
+	HasEvi    bool   `json:"hasEvi,omitempty"`
 }
 
 type c17step struct {
-	Op   string `json:"op"`             // prelude block crash restart eval eval2 reset finish rollback
+	Op   string `json:"op"`             // prelude block crash restart eval eval2 reset finish rollback upgrade
+	Ver  int    `json:"ver,omitempty"`  // upgrade: consensus version activated in place on the shared config (10, 11, 12)
 	Kill int    `json:"kill,omitempty"` // prelude: the identity that the abandoned lottery branch had killed
 	Txs  []int  `json:"txs,omitempty"`  // block/crash: indexes into the case's transaction list
 	Keep int    `json:"keep,omitempty"` // reset: number of blocks kept
 }
 
 type c17cer struct {
-	Seed   int64      `json:"seed"`
-	Epoch  uint16     `json:"epoch"`
-	U10    bool       `json:"u10"`
-	U11    bool       `json:"u11"`
-	U12    bool       `json:"u12"`
-	Shards int        `json:"shards,omitempty"` // number of shards (0 = 1)
+	Seed   int64  `json:"seed"`
+	Epoch  uint16 `json:"epoch"`
+	U10    bool   `json:"u10"`
+	U11    bool   `json:"u11"`
+	U12    bool   `json:"u12"`
+	Shards int    `json:"shards,omitempty"` // number of shards (0 = 1)
 	// Full: every collaborator of the ceremony is real (flipper, key pool, tx pool, chain), the state is inside the
 	// after-long-session period, blocks go through the real addBlock, candidates through the real
 	// calculateCeremonyCandidates; needed for the epoch switch ("finish") and the rollback over it ("rollback")
-	Full bool `json:"full,omitempty"`
+	Full   bool       `json:"full,omitempty"`
 	Ids    []c17ident `json:"ids"`
 	Subs   []c17sub   `json:"subs"`
 	Script []c17step  `json:"script"`
@@ -107,6 +109,7 @@ type c17fx struct {
 	txOwner  []int
 	baseH    uint64
 	refCache map[string]*c17result
+	cfgVer   int // bumped by every in-place consensus upgrade
 }
 
 func c17key(seed int64, i int) *ecdsa.PrivateKey {
@@ -338,6 +341,10 @@ func (fx *c17fx) buildTxs(vc *ceremony.ValidationCeremony) {
 			}
 			if pick("rep", j, sub.Reports) {
 				la.Grade(uint(j), types.GradeReported)
+			} else if sub.NoApprove {
+				// no grade: under upgrade 11 the reports of such a solver do not count (qualification.go ignoreGrades)
+			} else if sub.Reports > 0 && pick("plain", j, 60) {
+				la.Grade(uint(j), types.GradeD) // a plain approve, so that increased grades stay <= 1 for most solvers
 			} else {
 				la.Grade(uint(j), types.Grade(2+int(crypto.Hash([]byte{byte(i), byte(j)})[0])%4))
 			}
@@ -409,14 +416,14 @@ type c17idres struct {
 }
 
 type c17result struct {
-	Failed bool
-	Count  int
-	Ids    []c17idres
-	Root   string
+	Failed   bool
+	Count    int
+	Ids      []c17idres
+	Root     string
 	Missed   []bool // per identity, from the validation stats of a first evaluation (nil on a cache hit)
 	Approved []bool // per identity, same source
-	Panic   string
-	Rewards string // digest of everything the reward distribution reads from the epoch result
+	Panic    string
+	Rewards  string // digest of everything the reward distribution reads from the epoch result
 }
 
 // c17rewards: canonical text of ShardResults (bad/good authors, author results, good inviters, reporters), pools and
@@ -575,8 +582,8 @@ func (fx *c17fx) eval(n *c17node, height uint64) (res *c17result) {
 // (appstate.CalculateApprovedCandidates over readEvidenceMaps(shard)); independent of the ceremony code.
 func (fx *c17fx) approvedRef(set []int) []bool {
 	res := make([]bool, len(fx.addrs))
-	maps := map[int]int{}   // shard -> number of evidence maps of its candidates
-	score := map[int]int{}  // identity -> number of own-shard maps containing it
+	maps := map[int]int{}  // shard -> number of evidence maps of its candidates
+	score := map[int]int{} // identity -> number of own-shard maps containing it
 	for _, t := range set {
 		if fx.txKind[t] != types.EvidenceTx {
 			continue
@@ -644,7 +651,7 @@ func (fx *c17fx) wireTxsOf(ids []int) []*types.Transaction {
 // reference: a clean node that received exactly this set of transactions
 func (fx *c17fx) reference(set []int) *c17result {
 	can := fx.canonical(set)
-	key := fmt.Sprint(can)
+	key := fmt.Sprint(fx.cfgVer, can)
 	if r, ok := fx.refCache[key]; ok {
 		return r
 	}
@@ -762,7 +769,7 @@ func c17runCer(cs c17cer) (lines *c17lines, fails []c17failure, evals int, tags 
 				panic(e)
 			}
 			node.bus.Publish(&events.BlockchainResetEvent{}) // fork switch below the lottery block
-			if e := fx.app.ResetTo(1); e != nil { // the adopted branch's state inside the ceremony (identity Kill alive)
+			if e := fx.app.ResetTo(1); e != nil {            // the adopted branch's state inside the ceremony (identity Kill alive)
 				panic(e)
 			}
 			other := crypto.Hash(append([]byte("adopted-branch-"), fx.seed...))
@@ -788,15 +795,15 @@ func c17runCer(cs c17cer) (lines *c17lines, fails []c17failure, evals int, tags 
 		return set
 	}
 	version := func() int {
-		key := fmt.Sprint(fx.canonical(current()))
+		key := fmt.Sprint(fx.cfgVer, fx.canonical(current()))
 		if v, ok := versions[key]; ok {
 			return v
 		}
 		versions[key] = len(versions) + 1
 		return versions[key]
 	}
-	resetSeen, rollbackSeen, finished := false, false, false
-	evalAt := map[uint64][]string{} // digests X returned per height
+	resetSeen, rollbackSeen, finished, upgradeSeen := false, false, false, false
+	evalAt := map[uint64][]string{}  // digests X returned per height
 	ownByVersion := map[int]string{} // X's first digest per data version
 	defer func() {
 		if finished { // leave the shared state as found (reference computations of later steps never run after this)
@@ -860,6 +867,18 @@ func c17runCer(cs c17cer) (lines *c17lines, fails []c17failure, evals int, tags 
 				l.add("dump", fx.storeDump(node))
 				l.add("reset "+fmt.Sprint(version()), "ok") // a new process has no cache
 				tags = append(tags, "restart")
+			case "upgrade":
+				// upgrade.Upgrader.UpgradeConfigTo: the consensus version is activated by rewriting the shared ConsensusConf in
+				// place; node X keeps running, every node created from now on (clean reference nodes, restarts) starts after it
+				cons := fx.cfg.Consensus
+				for v := int(cons.Version) + 1; v <= st.Ver; v++ {
+					config.ApplyConsensusVersion(config.ConsensusVerson(v), cons)
+				}
+				fx.cfgVer++
+				upgradeSeen = true
+				l.add(fmt.Sprintf("new cer %d %s %s", cs.Epoch, b01(cons.EnableUpgrade10), b01(cons.EnableUpgrade12)), "ok") // rule flags in force from now on
+				l.add(fmt.Sprintf("data %d", version()), "ok")                                                               // the same transactions under other rules are other data
+				tags = append(tags, fmt.Sprintf("upgrade-%d", st.Ver))
 			case "finish":
 				// the validation-finishing block is accepted: the state moves to the next epoch, the ceremony completes the epoch
 				if !cs.Full || finished {
@@ -898,7 +917,7 @@ func c17runCer(cs c17cer) (lines *c17lines, fails []c17failure, evals int, tags 
 				time.Sleep(c17settle) // background clean-up, if any
 				blocks = blocks[:keep]
 				finished = false
-				l.add("fresh", "ok") // completeEpoch: NewQualification over the previous epoch's database,
+				l.add("fresh", "ok")   // completeEpoch: NewQualification over the previous epoch's database,
 				l.add("restore", "ok") // then restore()
 				for _, t := range reverted {
 					switch fx.txKind[t] {
@@ -974,6 +993,8 @@ func c17runCer(cs c17cer) (lines *c17lines, fails []c17failure, evals int, tags 
 					}
 					if rollbackSeen {
 						sig = "C17:re-evaluation-after-rollback-differs"
+					} else if upgradeSeen {
+						sig = "C17:outcome-depends-on-process-start-across-upgrade"
 					} else if relotterySeen {
 						sig = "C17:candidates-of-abandoned-lottery-branch"
 					} else if resetSeen && stale {
@@ -988,6 +1009,8 @@ func c17runCer(cs c17cer) (lines *c17lines, fails []c17failure, evals int, tags 
 					sig := "C17:evaluation-differs-from-own-earlier-evaluation"
 					if rollbackSeen {
 						sig = "C17:re-evaluation-after-rollback-differs"
+					} else if upgradeSeen {
+						sig = "C17:outcome-depends-on-process-start-across-upgrade"
 					}
 					fail(sig, fmt.Sprintf("step %d: the node evaluated the same chain data before and got %s, now %s", si, prev, got.digest()))
 				}
@@ -1130,7 +1153,11 @@ func c17shrinkCer(cs c17cer, sig string) c17cer {
 
 var c17states = []uint8{2, 2, 7, 7, 3, 3, 3, 8, 8, 4, 6, 1, 0}
 
-func c17genCer(c *hx.Ctx) c17cer {
+func c17genCer(c *hx.Ctx) c17cer { return c17genCerKind(c, false) }
+
+// upgradeCase: a ceremony in whose epoch a consensus upgrade gets activated: flips in the shard, small committees, solvers
+// that report 1-2 flips with mixed / missing approving grades (report-boundary flips), histories on the score boundaries
+func c17genCerKind(c *hx.Ctx, upgradeCase bool) c17cer {
 	r := c.Rng
 	cs := c17cer{Seed: r.Int63n(1 << 40), Epoch: uint16(r.Intn(3)) * 60, U10: r.Intn(4) != 0, U11: r.Intn(2) == 0, U12: r.Intn(3) != 0}
 	if cs.Epoch == 120 {
@@ -1147,6 +1174,19 @@ func c17genCer(c *hx.Ctx) c17cer {
 		n = 7 + r.Intn(9)
 	}
 	withFlips := r.Intn(2) == 0
+	if upgradeCase {
+		cs.Shards, n, withFlips = 0, 3+r.Intn(4), true
+		cs.U12 = false
+		switch r.Intn(3) {
+		case 0:
+			cs.U10, cs.U11 = false, false // upgrade 10 arrives
+		default:
+			cs.U10, cs.U11 = true, false // upgrade 11 arrives
+		}
+		if cs.Epoch == 0 {
+			cs.Epoch = 60
+		}
+	}
 	for i := 0; i < n; i++ {
 		id := c17ident{State: c17states[r.Intn(len(c17states))], Birthday: uint16(r.Intn(int(cs.Epoch) + 1)), Delegatee: -1, Inviter: -1, Stake: int64(r.Intn(50))}
 		if id.State == 0 {
@@ -1162,8 +1202,14 @@ func c17genCer(c *hx.Ctx) c17cer {
 				id.Shard = 2
 			}
 		}
+		if upgradeCase && id.State == 1 {
+			id.State = 7
+		}
 		if withFlips && id.State != 1 {
 			id.Required = uint8(r.Intn(4))
+			if upgradeCase {
+				id.Required = uint8(1 + r.Intn(3))
+			}
 			id.Flips = int(id.Required)
 			switch r.Intn(6) {
 			case 0:
@@ -1215,6 +1261,11 @@ func c17genCer(c *hx.Ctx) c17cer {
 	}
 	for i := 0; i < n; i++ {
 		sub := c17sub{Accuracy: 70 + r.Intn(31), Reports: r.Intn(25)}
+		if upgradeCase {
+			sub.Reports = 15 + r.Intn(18) // below the 34% at which all reports of a solver are ignored under every rule set
+			sub.NoApprove = r.Intn(3) == 0
+			sub.Accuracy = 55 + r.Intn(46)
+		}
 		switch r.Intn(16) {
 		case 0: // absent
 		case 1:
@@ -1349,6 +1400,70 @@ func c17script(c *hx.Ctx, cs *c17cer, ntx int, scripted int) {
 		if r.Intn(3) == 0 { // and once more: the block is accepted again, another fork
 			sc = append(sc, c17step{Op: "finish"}, c17step{Op: "rollback", Keep: 1 << 20}, c17step{Op: "eval"})
 		}
+	case 5: // seeded C17-s7: a proposal of height H is evaluated (cached) on a branch whose last blocks carry no transactions;
+		// those blocks are dropped (reset event with no reverted txs); the other branch brings late ceremony txs and ends at H
+		nLate := 1 + r.Intn(3)
+		if nLate >= ntx {
+			nLate = ntx / 2
+		}
+		early, late := perm[:ntx-nLate], perm[ntx-nLate:]
+		for _, b := range split(early) {
+			block(b)
+		}
+		k := 1 + r.Intn(2)
+		for i := 0; i < k; i++ {
+			sc = append(sc, c17step{Op: "block"}) // transaction-less blocks
+		}
+		sc = append(sc, c17step{Op: "eval"})
+		if r.Intn(2) == 0 {
+			sc = append(sc, c17step{Op: "eval2"})
+		}
+		keep := 0
+		for _, st := range sc {
+			if st.Op == "block" || st.Op == "crash" {
+				keep++
+			}
+		}
+		sc = append(sc, c17step{Op: "reset", Keep: keep - k})
+		for i := 0; i < k; i++ {
+			var b []int
+			if i == 0 {
+				b = late
+				if k > 1 && len(late) > 1 && r.Intn(2) == 0 {
+					b = late[:len(late)/2]
+				}
+			} else if i == 1 && len(sc[len(sc)-1].Txs) < len(late) {
+				b = late[len(sc[len(sc)-1].Txs):]
+			}
+			sc = append(sc, c17step{Op: "block", Txs: append([]int{}, b...)})
+		}
+		sc = append(sc, c17step{Op: "eval"})
+		if r.Intn(3) == 0 {
+			sc = append(sc, c17step{Op: "eval2"})
+		}
+	case 6: // seeded C17-s8: a consensus upgrade is activated in place in the middle of the ceremony
+		bs := split(perm)
+		at := r.Intn(len(bs) + 1)
+		ver := 10
+		if cs.U10 {
+			ver = 11
+		}
+		if cs.U11 {
+			ver = 12
+		}
+		for i, b := range bs {
+			if i == at {
+				sc = append(sc, c17step{Op: "upgrade", Ver: ver})
+			}
+			block(b)
+		}
+		if at == len(bs) {
+			sc = append(sc, c17step{Op: "upgrade", Ver: ver})
+		}
+		sc = append(sc, c17step{Op: "eval"}, c17step{Op: "eval2"})
+		if r.Intn(2) == 0 {
+			sc = append(sc, c17step{Op: "restart"}, c17step{Op: "eval"})
+		}
 	default: // reorg: evaluate on branch A, reset, other branch of the same length, evaluate the same height again
 		if ntx < 2 {
 			for _, b := range split(perm) {
@@ -1414,7 +1529,7 @@ func c17script(c *hx.Ctx, cs *c17cer, ntx int, scripted int) {
 func c17ceremonies(c *hx.Ctx) error {
 	n := c.Scale(150, 1500)
 	for i := 0; i < n; i++ {
-		cs := c17genCer(c)
+		cs := c17genCerKind(c, i >= 8 && i%8 == 6)
 		cs.Full = true
 		fx, err := c17newFx(cs)
 		if err != nil {
@@ -1426,6 +1541,12 @@ func c17ceremonies(c *hx.Ctx) error {
 		}
 		if i >= 8 && i%4 == 3 {
 			mode = 4 // a quarter of the ceremonies: rollback over the validation-finishing block
+		}
+		if i >= 8 && i%8 == 1 {
+			mode = 5 // transaction-less blocks dropped after a cached evaluation, late ceremony txs on the other branch
+		}
+		if i >= 8 && i%8 == 6 {
+			mode = 6 // consensus upgrade activated mid-ceremony
 		}
 		c17script(c, &cs, len(fx.txs), mode)
 		if i%8 == 5 && len(fx.candIdx) > 1 {
